@@ -1764,7 +1764,12 @@ func vCheckTL2Format(st *vStats, src string, origin string) {
 			if vHasMonoUnion(f) {
 				cl = "declarations-single-variant-union"
 			}
-			st.violation("reparse", cl, fmt.Sprintf("declarations differ after formatting (canonical=%v):\n before: %s\n after:  %s\nformatted:\n%s", canon, vCut(want, 1500), vCut(got, 1500), vCut(p1, 800)), src)
+			fd := 0
+			for fd < len(want) && fd < len(got) && want[fd] == got[fd] {
+				fd++
+			}
+			around := func(x string) string { return x[max(0, fd-200):min(len(x), fd+200)] }
+			st.violation("reparse", cl, fmt.Sprintf("declarations differ after formatting (canonical=%v), first difference at %d:\n before: ...%s...\n after:  ...%s...\nformatted:\n%s", canon, fd, around(want), around(got), vCut(p1, 1500)), src)
 			continue
 		}
 		var sb2 strings.Builder
